@@ -157,7 +157,9 @@ func WorkerMain(id, batchFile, journalFile string) int {
 		curCase, curStart, curBudget = c.ID, cpuSeconds(), float64(budget)
 		wmu.Unlock()
 		var res Result
+		t0 := time.Now()
 		pi := Guard(func() { res = chk.Run(c, env) })
+		res.WallMs = time.Since(t0).Milliseconds()
 		wmu.Lock()
 		curCase = ""
 		wmu.Unlock()
